@@ -53,7 +53,7 @@ class LmtpRelayClient(SmtpRelayClient):
             self._send_envelope(rcpt_results, envelope)
             data_results = self._send_message_data(envelope)
         except SmtpRelayError as e:
-            result.set_exception(e)
+            self._set_failure(result, envelope, e)
             self._rset()
             return
         had_errors = False
